@@ -49,6 +49,40 @@ type gwServer struct {
 type gwVS struct {
 	cfg      config.Config
 	gateways []string
+	exportTo []string
+}
+
+// gwExportClass: 0 exported to its own namespace only (the router's), 1 exported to the router's namespace by name,
+// 2 public, 3 not visible to a router of namespace pns.
+func (v *gwVS) exportClass(pns string) int {
+	if len(v.exportTo) == 0 {
+		return 2
+	}
+	cl := 3
+	for _, e := range v.exportTo {
+		switch {
+		case e == "*":
+			return 2
+		case (e == "." || e == v.cfg.Namespace) && v.cfg.Namespace == pns:
+			cl = 0
+		case e == pns && cl > 1:
+			cl = 1
+		}
+	}
+	return cl
+}
+
+// gwVisibleVss: the gateway-bound VirtualServices the router sees, by export class (CODE-DERIVED), creation order inside
+func (s *state) gwVisibleVss() []gwVS {
+	var out []gwVS
+	for cl := 0; cl < 3; cl++ {
+		for _, v := range s.gw.vss {
+			if v.exportClass(s.node.Metadata.Namespace) == cl {
+				out = append(out, v)
+			}
+		}
+	}
+	return out
 }
 
 type gwDef struct {
@@ -142,14 +176,19 @@ func (s *state) gwStep(f []string) (string, bool) {
 			return "ok", true
 		}
 		for _, v := range g.vss {
-			if v.cfg.Name == s.cfg.Name {
-				return "ok", true
+			if v.cfg.Name == s.cfg.Name && v.cfg.Namespace == s.cfg.Namespace {
+				return "ok", true // VirtualServices are identified by name AND namespace
 			}
 		}
 		c := s.cfg.DeepCopy()
 		c.Spec.(*networking.VirtualService).Gateways = wire.DecList(f[1])
 		c.CreationTimestamp = time.Unix(int64(1000+len(g.vss)), 0)
-		g.vss = append(g.vss, gwVS{cfg: c, gateways: wire.DecList(f[1])})
+		var ex []string
+		if len(f) > 2 {
+			ex = wire.DecList(f[2])
+		}
+		c.Spec.(*networking.VirtualService).ExportTo = ex
+		g.vss = append(g.vss, gwVS{cfg: c, gateways: wire.DecList(f[1]), exportTo: ex})
 		g.drop()
 		return "ok", true
 	case "grds":
@@ -351,6 +390,15 @@ func (s *state) specServers() []specServer {
 	g := &s.gw
 	var servers []specServer
 	for _, gd := range g.gws {
+		selected := true // a Gateway resource configures the routers carrying its selector labels
+		for k, v := range gd.selector {
+			if s.node == nil || s.node.Labels[k] != v {
+				selected = false
+			}
+		}
+		if !selected {
+			continue
+		}
 		for _, sv := range gd.servers {
 			if gd.routeNameOf(sv) != g.route {
 				continue
@@ -402,7 +450,7 @@ func (s *state) gwDomainsSpec() []*specDomain {
 	saveVS, saveCfg, savePort, saveGw, saveTLS := s.vs, s.cfg, s.port, s.gwNames, s.isTLS
 	defer func() { s.vs, s.cfg, s.port, s.gwNames, s.isTLS = saveVS, saveCfg, savePort, saveGw, saveTLS }()
 	for _, ss := range s.specServers() {
-		for _, v := range s.gw.vss {
+		for _, v := range s.gwVisibleVss() {
 			bound := false
 			for _, n := range v.gateways {
 				bound = bound || n == ss.gw.fullName()
@@ -584,6 +632,7 @@ func genGw(seed uint64, n int, out string) {
 			hosts []string
 		}
 		var perVS []vsHosts
+		usedVS := map[string]bool{}
 		for k := 0; k < nvs; k++ {
 			gws := []string{wire.Pick(r, gwNames)}
 			switch r.Intn(10) {
@@ -620,7 +669,20 @@ func genGw(seed uint64, n int, out string) {
 						hs = append(hs, h)
 					}
 				}
-				vsf := []string{"vs", "gvs" + strconv.Itoa(k), wire.Pick(r, nss), "plain", wire.EncList(hs)}
+				// VirtualServices are identified by name AND namespace: the same name may be used in two namespaces
+				vsName, vsNs := "gvs"+strconv.Itoa(k), wire.Pick(r, nss)
+				if k > 0 && r.Chance(1, 3) {
+					vsName = "gvs" + strconv.Itoa(r.Intn(k))
+					for range nss {
+						if usedVS[vsNs+"/"+vsName] {
+							vsNs = nss[(indexOf(nss, vsNs)+1)%len(nss)]
+						}
+					}
+					if usedVS[vsNs+"/"+vsName] {
+						vsName = "gvs" + strconv.Itoa(k)
+					}
+				}
+				vsf := []string{"vs", vsName, vsNs, "plain", wire.EncList(hs)}
 				s.apply(vsf)
 				s.vs.Gateways = gws
 				nr := 1 + r.Intn(3)
@@ -695,21 +757,49 @@ func genGw(seed uint64, n int, out string) {
 					emitRule(o, h)
 				}
 				gf := []string{"gvs", wire.EncList(gws)}
+				if r.Chance(1, 5) { // exportTo: everywhere, its own namespace only, the router's namespace, another one
+					gf = append(gf, wire.EncList(wire.Pick(r, [][]string{{"*"}, {"."}, {proxyNs}, {"other"}, {".", proxyNs}})))
+				}
 				s.gwStep(gf)
 				o.Line(gf...)
+				usedVS[s.cfg.Namespace+"/"+s.cfg.Name] = true
 				merged.Http = append(merged.Http, s.vs.Http...)
 				allHosts = append(allHosts, hs...)
 				perVS = append(perVS, vsHosts{vs: s.vs, hosts: hs})
 				break
 			}
 		}
+		if r.Chance(1, 10) {
+			routeNames = append(routeNames, wire.Pick(r, []string{"http.9999", "https.443.https0.nosuch.default"})) // no server listens there
+		}
 		for _, rn := range routeNames {
-			o.Line("grds", wire.Enc(proxyNs), encPairs(sel), wire.Enc(rn))
+			labels := sel
+			if r.Chance(1, 12) {
+				labels = []kv{{"istio", "egressgateway"}} // a router no Gateway resource selects: no route configuration at all
+			}
+			o.Line("grds", wire.Enc(proxyNs), encPairs(labels), wire.Enc(rn))
+			// the domains of this route that VirtualServices answer for (spec side; the real code is not consulted)
+			s.gw.route = rn
+			s.node = &model.Proxy{Type: model.Router, Labels: pairsMap(labels), Metadata: &model.NodeMetadata{Namespace: proxyNs}}
+			var answered []*specDomain
+			for _, d := range s.gwDomainsSpec() {
+				if len(d.cs) > 0 {
+					answered = append(answered, d)
+				}
+			}
 			nreq := 5 + r.Intn(5)
+			if len(answered) == 0 {
+				nreq = 2 // nothing but 404 / the https redirect to be seen here
+			}
 			for k := 0; k < nreq; k++ {
 				q := synthRequests(r, merged, 1)[0]
-				// mostly: a request aimed at one VirtualService, addressed to one of ITS hosts; else any covered host
-				if r.Chance(3, 5) && len(perVS) > 0 {
+				// mostly: a request aimed at one VirtualService that answers on THIS route, addressed to a domain it answers
+				// for; else aimed at any VirtualService and one of its hosts; else any covered host
+				if r.Chance(3, 4) && len(answered) > 0 {
+					d := wire.Pick(r, answered)
+					q = synthRequests(r, wire.Pick(r, d.cs).vs, 1)[0]
+					q.authority = concreteHost(r, d.name)
+				} else if r.Chance(3, 5) && len(perVS) > 0 {
 					v := wire.Pick(r, perVS)
 					q = synthRequests(r, v.vs, 1)[0]
 					q.authority = concreteHost(r, wire.Pick(r, v.hosts))
